@@ -76,16 +76,11 @@ def set_history():
     return {"package": "inkayaku_engine_core", "append_to": "engine_core/src/engine/zobrist_history.rs", "module": _read("kani/history.rs")}
 
 
-def set_fifo():
-    return {"package": "inkayaku_engine_core", "append_to": "engine_core/src/engine/table.rs", "module": _read("kani/fifo.rs")}
-
-
 def set_ucimove():
     return {"package": "inkayaku_uci", "append_to": "uci/src/uci.rs", "module": _read("kani/ucimove.rs")}
 
 
 SETS = {
-    "fifo": set_fifo,
     "attacks": set_attacks,
     "ucimove": set_ucimove,
     "history": set_history,
@@ -115,10 +110,6 @@ HARNESSES = {
     },
     "ucimove": {
         "uci_move_from_str_ascii_le5": {"complete": False, "bound": "ASCII strings of length <= 5 (every well-formed move text has length 4 or 5)", "note": "real UciMove::from_str incl. str::chars decoding and the error closures"},
-    },
-    "fifo": {
-        "fifo_map_capacity_le2_ops4": {"complete": False, "bound": "capacity 1 or 2, every history of 4 operations (put with symbolic u64 key / u8 value, or clear), one symbolic probe key; loops unwound 6 times with unwinding assertions",
-                                       "note": "bounded stand-in next to the unbounded Verus proof of unit hashtable; real std HashMap (hashbrown) and VecDeque under CBMC"},
     },
     "history": {
         "count_repetitions_bounded_10": {"complete": False, "bound": "current ply index < 10 (symbolic hashes for plies 0..9, any u16 half-move clock); loops unwound 12 times with unwinding assertions",
